@@ -31,20 +31,21 @@ Definition qenabled (g : qsys) : list (nat * bool) :=
 
 (* what thread t is parked on: -1 finished / dormant, 100 the pipe, else the semaphore id *)
 Definition qpend (g : qsys) (t : qthread) : Z :=
-  if qfin t then -1
+  if qfin t || qexited code t then -1
   else if qfeeder t && negb (started (nth (qproc t) (procs g) dps)) then -1
   else match nth_error (code (qcid t)) (qpc t) with
        | Some (QAcq s _ _ _) | Some (QRel s) | Some (QIsZero s _) => Z.of_nat (sid (qproc t) s)
        | Some (QSend _) | Some (QRecv _) | Some (QPoll _ _) => 100
+       | Some (QClock _) => 101
        | _ => -1
        end.
 
 Definition qquiet (g : qsys) : bool :=
-  forallb (fun t => qfin t || (qfeeder t && negb (started (nth (qproc t) (procs g) dps)))) (qthr g).
+  forallb (fun t => qfin t || qexited code t || (qfeeder t && negb (started (nth (qproc t) (procs g) dps)))) (qthr g).
 
 (* the observation of a finished run, from the model state and the (reversed) logs *)
 Definition qleaf_obs (g : qsys) (res : list event) (rks : list nat) : qobserved :=
-  (rev res, rev rks, map (fun t => rev (map snd (qresults t))) (qthr g), map qfin (qthr g),
+  (rev res, rev rks, map (fun t => rev (map snd (qresults t))) (qthr g), map (fun t => qfin t || qexited code t) (qthr g),
    map val (qsems g), pipe g, map buf (procs g), map (qpend g) (qthr g),
    if qquiet g then 0 else 1).
 
